@@ -323,7 +323,8 @@ func (c01) RunCase(c *core.Ctx) {
 				var o *run.Outcome
 				var prior, input any
 				if mode == ref.Parse {
-					prior = gen.Prefill(c.R, n, false)
+					// every third destination is one the caller used before: stale leaves, non-nil pointers, filled slices
+					prior = gen.Prefill(c.R, n, rep == 1)
 					o = run.Parse(b, data, prior)
 					input = data
 				} else {
@@ -338,7 +339,7 @@ func (c01) RunCase(c *core.Ctx) {
 				}
 				if !o.NoIssues() {
 					c.Count("runs_with_issues", 1)
-					break // the antecedent (no issues) does not hold; other orders give the same issue set (C09 checks that)
+					continue // the antecedent (no issues) does not hold for this run; the other runs differ in visit order, destination and pool state
 				}
 				w := &c01walker{mode: mode}
 				w.walk(n, data, prior, o.Dest, "$")
